@@ -355,14 +355,6 @@ func (h *hist) checkRanges(prefix []byte, lefts, rights [][]byte) ([][]byte, boo
 	return splits, ok
 }
 
-func bytesList(l [][]byte) string {
-	s := make([]string, len(l))
-	for i, k := range l {
-		s[i] = B(k)
-	}
-	return ListOf(s)
-}
-
 var streamTxnSeq = 100000
 
 // quiescentRun: snapshot scan by a read-only transaction opened right before the run, the
